@@ -14,6 +14,12 @@
 (*      T = first 128 bits of p^sH(S).                                     *)
 EXTENDS AsconModes
 
+\* The bit-by-bit absorption of IsapRk is an operator parameter: the concrete instance binds it
+\* to IsapRekeyBits below (the real thing, 1 permutation per bit); symbolic models bind it to a
+\* free function of (pre-computed key state, absorbed string), because 128 nested permutation
+\* terms per re-keying are beyond what TLC can compare.
+CONSTANT RekeyOp(_, _, _)
+
 IsapPar(v) ==
   CASE v = "128a" -> [klen |-> 16, sH |-> 12, sB |-> 1,  sE |-> 6,  sK |-> 12]
     [] v = "128"  -> [klen |-> 16, sH |-> 12, sB |-> 12, sE |-> 12, sK |-> 12]
@@ -26,8 +32,10 @@ IsapIV(par, f) == Bytes(<<f, par.klen * 8, 64, 1, par.sH, par.sB, par.sE, par.sK
 IsapKeyState(par, K, f) == P(Ovw(State0, 0, K \o IsapIV(par, f)), 12 - par.sK)
 IsapKeyExpand(v, K) == [ke |-> IsapKeyState(IsapPar(v), K, 3), ka |-> IsapKeyState(IsapPar(v), K, 2)]
 
+IsapRekey(par, S0, Y) == RekeyOp(par, S0, Y)
+
 \* bit-wise absorption of Y (a byte string) starting from the pre-computed state
-IsapRekey(par, S0, Y) ==
+IsapRekeyBits(par, S0, Y) ==
   LET nbits == Len(Y) * 8 IN
   FoldLeft(LAMBDA acc, i :     \* i = 1..nbits; bit (i-1) of Y, most significant bit of each byte first
              LET byte == Y[((i - 1) \div 8) + 1]
